@@ -9,6 +9,8 @@ package main
 
 import (
 	"bytes"
+	"context"
+	"errors"
 	"fmt"
 	"io"
 	"net"
@@ -18,6 +20,7 @@ import (
 	"strings"
 	"time"
 
+	pdtls "github.com/refraction-networking/conjure/pkg/dtls"
 	"github.com/refraction-networking/conjure/pkg/registrars/dns-registrar/dns"
 	"github.com/refraction-networking/conjure/pkg/registrars/dns-registrar/encryption"
 	"github.com/refraction-networking/conjure/pkg/registrars/dns-registrar/msgformat"
@@ -596,6 +599,79 @@ func paramsEntry(e *venum.E, a *vh.Args) {
 	}
 }
 
+type failDNAT struct{ calls *int }
+
+func (d failDNAT) AddEntry(clientAddr *net.IP, clientPort uint16, phantomIP *net.IP, phantomPort uint16) error {
+	*d.calls++
+	_ = clientAddr.String() + phantomIP.String()
+	return errors.New("dnat: scripted failure")
+}
+
+// connectEntry: a DTLS registration reaches the connecting transport's Connect (started by the ingest pipeline in a
+// goroutine of its own, where a panic takes the station down). Connect is entered for every shape of the
+// client-supplied DTLS parameters x phantom family with an already cancelled context and a DNAT that refuses, so that
+// everything it does with the registration's bytes before touching the network runs, synchronously (its go statements
+// are rewritten and run inline), and nothing waits.
+func connectEntry(e *venum.E, a *vh.Args) {
+	if a.ShardI != 0 {
+		return
+	}
+	vsched.InlineGo = true
+	vnet.ResolveHook = func(network, host string) (*net.IPAddr, error) {
+		return &net.IPAddr{IP: net.ParseIP("93.184.216.34")}, nil
+	}
+	dnatCalls := 0
+	tp := dtlst.VerifTransport(failDNAT{&dnatCalls}, func(ctx context.Context, _ *pdtls.Config) (net.Conn, error) {
+		<-ctx.Done()
+		return nil, ctx.Err()
+	})
+	addrs := []*pb.Addr{nil, {}, {IP: []byte{198, 51, 100, 9}, Port: proto.Uint32(4000)}, {IP: net.ParseIP("2001:db8::9"), Port: proto.Uint32(70000)},
+		{IP: []byte{1, 2, 3, 4, 5}}, {Port: proto.Uint32(4294967295)}, {IP: []byte{}, Port: proto.Uint32(0)}}
+	var plist []proto.Message
+	plist = append(plist, nil)
+	for _, a4 := range addrs {
+		for _, a6 := range addrs {
+			for _, un := range []*bool{nil, proto.Bool(true)} {
+				plist = append(plist, &pb.DTLSTransportParams{SrcAddr4: a4, SrcAddr6: a6, Unordered: un, RandomizeDstPort: proto.Bool(a4 == nil)})
+			}
+		}
+	}
+	plist = append(plist, &pb.GenericTransportParams{RandomizeDstPort: proto.Bool(true)})
+	cctx, cancel := context.WithCancel(context.Background())
+	cancel()
+	for pi, pm := range plist {
+		for _, fam := range []string{"v4", "v6", "both"} {
+			for _, lv := range []uint32{0, 4} {
+				if !e.Case() {
+					return
+				}
+				id := fmt.Sprintf("connect;params=%d;family=%s;libver=%d", pi, fam, lv)
+				rm := vfix.Manager(&lib.RegConfig{EnableIPv4: true, EnableIPv6: true}, sel, &vfix.Tester{}, vfix.Transports{Min: true}, nil)
+				_ = rm.AddTransport(pb.TransportType_DTLS, tp)
+				var anns []lib.VerifDetectorMsg
+				rm.VerifCaptureDetector(&anns)
+				m := vfix.Msg{Secret: vfix.Secret(40 + pi%3), Transport: pb.TransportType_DTLS, Params: pm, V4: fam != "v6", V6: fam != "v4", Gen: 1, LibVer: lv, Covert: "93.184.216.34:443", Source: pb.RegistrationSource_API, Addr: []byte{203, 0, 113, 7}}
+				guard(e, "dtls-connect", id, func() {
+					regs, err := rm.VerifParseRegMessage(m.Bytes())
+					if err != nil {
+						return
+					}
+					for _, r := range regs {
+						if r == nil {
+							continue
+						}
+						before := dnatCalls
+						_, _ = tp.Connect(cctx, r)
+						if dnatCalls > before {
+							e.Nontrivial(id)
+						}
+					}
+				})
+			}
+		}
+	}
+}
+
 func wrapEntry(e *venum.E, a *vh.Args) {
 	if a.ShardI != 1%a.ShardN {
 		return
@@ -670,6 +746,7 @@ func main() {
 	case "misc":
 		paramsEntry(e, a)
 		wrapEntry(e, a)
+		connectEntry(e, a)
 	default:
 		vh.Fatal("unknown scenario %q", a.Scenario)
 	}
